@@ -16,7 +16,8 @@ Names == {<<>>} \cup { <<c>> : c \in Comps } \cup AllBytes \cup Longs \cup BigNu
          \cup { <<c, d>> : c \in { x \in Comps : x.t \in {8, 50} /\ Len(x.v) <= 1 }, d \in { x \in Comps : x.t \in {1, 8, 54} } }
          \cup { <<c, c, d>> : c \in { x \in Comps : x.t = 8 /\ Len(x.v) = 1 }, d \in { x \in Comps : x.t \in {8, 32} /\ Len(x.v) <= 1 } }
 \* parser inputs: every string of up to 4 tokens over separators, escapes and type markers
-Tokens == {"/", "=", "%", "a", ".", "..", "%2", "%GG", "%41", "8", "sha256digest", "seg", "65536", "0", " ", "<", "v"}
+Tokens == {"/", "=", "%", "a", ".", "..", "%2", "%GG", "%41", "8", "sha256digest", "seg", "65536", "0", " ", "<", "v", "HI", "%HI", "%4HI"}
+\* ("HI" stands for a byte >= 0x80, which TLA+ strings cannot hold: the driver substitutes it, see name_test.go)
 Strings == { "" } \cup Tokens \cup { a \o b : a, b \in Tokens } \cup { a \o b \o c : a, b \in {"/", "=", "%", "a", "8", "seg"}, c \in Tokens }
            \cup { "/" \o a \o "=" \o b : a, b \in Tokens }
 VARIABLE done
